@@ -295,6 +295,35 @@ def ultra_case(rep, N):
             tol = rv(Fraction(1, 10**9) * N**(2 * p) / min(1, fac) ** p)
             decide(rep, f'ultra/N{N}/[{x0},{x1}]/agrees-with-dense-chebyshev/D{p}', close(matvec(Sp, matvec(Dc, c)), matvec(Du, c), tol), c, 'ultraspherical/agrees-with-chebyshev',
                    lambda cv, Sp=Sp, Dc=Dc, Du=Du: float(np.abs(Sp @ (Dc @ cv) - Du @ cv).max()))
+        # boundary rows and integration weights of the ultraspherical helper (inherited from the Chebyshev helper, the coefficients are T coefficients;
+        # methods that the subclass overrides -- the differentiation matrix -- must not change them)
+        sT = basis_scale(Tb, N)
+        for s_ in (-1, 0, 1):
+            row = np.real(np.asarray(H.get_Dirichlet_BC_row(s_))).astype(float)
+            got = sum(rv(row[k]) * c[k] for k in range(N))
+            ex = mono_eval(to_mono(Tb, c), s_)
+            tol = rv(Fraction(1, 10**10) * sT)
+            decide(rep, f'ultra/N{N}/[{x0},{x1}]/dirichlet-row/{s_}', z3.And(got - ex <= tol, ex - got <= tol), c, 'ultraspherical/dirichlet-row',
+                   lambda cv, row=row, s_=s_: float(abs(row @ cv - np.polynomial.chebyshev.chebval(s_, cv))))
+        w = np.real(np.asarray(H.get_integration_weights())).astype(float)
+        got = sum(rv(w[k]) * c[k] for k in range(N))
+        ex = mono_integral(to_mono(Tb, c), -1, 1) * rv(fac)
+        tol = rv(Fraction(1, 10**10) * sT * max(1, fac))
+        decide(rep, f'ultra/N{N}/[{x0},{x1}]/integration-weights', z3.And(got - ex <= tol, ex - got <= tol), c, 'ultraspherical/integration-weights',
+               lambda cv, w=w, fac=fac: float(abs(w @ cv - float(fac) * np.diff(np.polynomial.chebyshev.chebval([-1, 1], np.polynomial.chebyshev.chebint(cv)))[0])))
+        if (x0, x1) == (-1, 1):  # (Neumann and integral rows are documented for the reference interval)
+            for s_, nm in ((-1, 'left'), (1, 'right')):
+                row = np.real(np.asarray(H.get_Neumann_BC_row(s_))).astype(float)
+                got = sum(rv(row[k]) * c[k] for k in range(N))
+                ex = mono_eval(mono_deriv(to_mono(Tb, c)), s_)
+                tol = rv(Fraction(1, 10**10) * sT * N * N)
+                decide(rep, f'ultra/N{N}/neumann-row/{nm}', z3.And(got - ex <= tol, ex - got <= tol), c, 'ultraspherical/neumann-row',
+                       lambda cv, row=row, s_=s_: float(abs(row @ cv - np.polynomial.chebyshev.chebval(s_, np.polynomial.chebyshev.chebder(cv)))))
+            row = np.real(np.asarray(H.get_integ_BC_row())).astype(float)
+            got = sum(rv(row[k]) * c[k] for k in range(N))
+            ex = mono_integral(to_mono(Tb, c), -1, 1)
+            decide(rep, f'ultra/N{N}/integral-row', z3.And(got - ex <= rv(Fraction(1, 10**10) * sT), ex - got <= rv(Fraction(1, 10**10) * sT)), c, 'ultraspherical/integral-row',
+                   lambda cv, row=row: float(abs(row @ cv - np.diff(np.polynomial.chebyshev.chebval([-1, 1], np.polynomial.chebyshev.chebint(cv)))[0])))
     rep.sample({'case': f'ultra/N{N}', 'free': 'coefficient vector in [-1,1]^N', 'oracle': 'Gegenbauer polynomials by exact three-term recurrence'}, limit=4)
 
 
